@@ -285,7 +285,7 @@ pub fn run(ctx: &Ctx, rep: &mut Report) {
     }
     if ctx.replay.is_none() {
         let inputs: Vec<crate::conform::Input> = seeds.iter().take(base_n).filter(|s| !s.attr.contains("dump")).flat_map(|s| Entry::BOTH.iter().map(move |&e| crate::conform::Input { entry: e, attr: s.attr.clone(), item: s.item.clone() })).collect();
-        crate::conform::validate(rep, "c15p", &inputs);
+        crate::conform::validate_or_die(rep, "c15p", &inputs);
     }
     rep.set("seeds", json!(seeds.len()));
 }
